@@ -476,7 +476,10 @@ func runConcChild(c Case, tr *Tracer) {
 		races += strings.Count(string(b), "WARNING: DATA RACE")
 		msg += string(b)
 	}
-	if !strings.Contains(msg, "fatal error") && !strings.Contains(msg, "panic:") && races == 0 {
+	// a child that ran out of memory or was killed says nothing about the library
+	libraryFault := strings.Contains(msg, "fatal error: concurrent map") || strings.Contains(msg, "panic:") ||
+		(strings.Contains(msg, "fatal error:") && !strings.Contains(msg, "out of memory") && !strings.Contains(msg, "cannot allocate"))
+	if !libraryFault && races == 0 {
 		// not the library's doing (the child could not start, was killed, ...): no verdict
 		fmt.Fprintln(os.Stderr, "conc child failed:", err, msg)
 		os.Exit(2)
